@@ -80,6 +80,8 @@ def _run(world: World, plan):
     tr = {'up': None, 'down': None}
     events = []          # ('g', t, nbytes, tag) | ('c', t, kbps)
     last = {'bytes': 0, 'id': None}
+    inflight = {}
+    current = {'kbps': plan['limit']}
 
     def hook_a(event):
         if isinstance(event, TransferAddedEvent) and event.transfer.direction == TransferDirection.UPLOAD:
@@ -101,7 +103,17 @@ def _run(world: World, plan):
             last['bytes'] = b
             return
         if b > last['bytes']:
-            events.append(('g', loop.time(), b - last['bytes'], side))
+            delta = b - last['bytes']
+            fl = inflight.pop('rec', None)
+            if fl is not None:
+                # the chunk that was between its grant and the counter when the limit changed was granted under the
+                # previous limit: it is booked at the instant of the change, before the change
+                pre = min(delta, fl['cap'])
+                events.insert(fl['idx'], ('g', fl['t'], pre, side))
+                delta -= pre
+                world.probe('pair_chunk_in_flight_at_change')
+            if delta:
+                events.append(('g', loop.time(), delta, side))
         last['bytes'] = b
     loop.monitors.append(monitor)
     results = {}
@@ -124,6 +136,13 @@ def _run(world: World, plan):
                 limited.client.network.set_upload_speed_limit(ch['kbps'])
             else:
                 limited.client.network.set_download_speed_limit(ch['kbps'])
+            t = tr[side]
+            if 'rec' not in inflight and t is not None and t.state.VALUE.name in ('UPLOADING', 'DOWNLOADING'):
+                # one grant per connection can be in flight: 8192 bytes without a limit, at most one second's worth
+                # of the limit otherwise
+                inflight['rec'] = {'idx': len(events), 't': loop.time(),
+                                   'cap': 8192 if current['kbps'] == 0 else 1024 * current['kbps']}
+            current['kbps'] = ch['kbps']
             events.append(('c', loop.time(), ch['kbps']))
         t_end = loop.time() + 900.0
         while loop.time() < t_end:
